@@ -582,7 +582,7 @@ func scanInputs(r *hx.Rand, tier string) []SInput {
 	icmp := func(s int) Probe { return Probe{Src: s, Proto: "icmp", Port: 8} }
 	syn := func(s, p, sp int) Probe { return Probe{Src: s, Proto: "tcp", Port: p, Flags: 2, SPort: sp} }
 	var ins []SInput
-	// corpus: the witnesses of the two known defects first
+	// corpus: the witnesses of the two repaired defects first (a regression shows up as case 0 / 1)
 	ins = append(ins,
 		SInput{Probes: []Probe{udp(0, 1000), udp(1, 1000), udp(2, 1000)}, Ticks: T},
 		SInput{Probes: []Probe{syn(0, 80, 20001), syn(0, 443, 20002), syn(0, 80, 20003)}, Ticks: T},
